@@ -118,7 +118,11 @@ pub struct Exec {
     pub holders: u32,
     pub low_prio: i32,
     pub last_thread: usize,
+    /// consecutive scheduling points with exactly one unfinished thread
+    pub alone_steps: u32,
 }
+
+pub const LONE_LIMIT: u32 = 4000;
 
 struct Global(UnsafeCell<Option<Exec>>);
 unsafe impl Sync for Global {}
@@ -172,6 +176,18 @@ pub fn sched_point(kind: u8) {
     if e.stats.steps > e.step_budget {
         e.budget_hit = true;
         e.stop = true;
+    }
+    // a thread that is the only one left (every other thread has finished: nobody can hold the lock, nobody
+    // is left to wait for) completes its operations in a few hundred steps; thousands of steps alone is a
+    // call that does not return although all holders have released - not slowness, the scheduler owns time
+    if e.threads.iter().filter(|t| t.status != Status::Finished).count() == 1 {
+        e.alone_steps += 1;
+        if e.alone_steps == LONE_LIMIT && e.failure.is_none() {
+            let c = e.current;
+            fail("liveness|livelock|a thread left alone never finishes its call", format!("thread {c} executed {LONE_LIMIT} scheduling points after every other thread had finished without completing its operation (step kinds of the last points: {:?})", e.trace.iter().rev().take(12).map(|x| x.1).collect::<Vec<_>>()));
+        }
+    } else {
+        e.alone_steps = 0;
     }
     suspend_current();
 }
@@ -762,6 +778,7 @@ pub fn run_execution(sched: Sched, events: Events, step_budget: u32, bodies: Vec
         failure: None,
         step_budget,
         budget_hit: false,
+        alone_steps: 0,
         trace: Vec::new(),
         holders: 0,
         low_prio: -1,
